@@ -25,7 +25,8 @@ RSS_BUDGET_KB = 256 * 1024  # + 4 x (input + legitimately declared output), whic
 RULE = ("inputs: (a) corpus archives damaged (bit flips, truncations, overwrites, inserts/deletes, splices); (b) structure-aware mutation of the "
         "reference writer's header token stream (every NUMBER replaced by each of {0,1,2,0x7f,0x80,0xff,0xffff,2^31,2^32,2^63,2^64-1}, property-id "
         "bytes replaced, single-bit flips and 00/ff in the leading/last bytes of every raw blob (method ids, coder properties, vectors, names), header ranges deleted/duplicated) and hostile coder properties for every codec, all CRCs re-sealed so the parser is "
-        "entered; (c) wrong/missing passwords; (e) decompression bombs (768 MiB of zeros behind Deflate/BZip2/LZMA/LZMA2/ZStandard/Brotli in a folder declaring two members of a "
+        "entered; (c) wrong/missing passwords; (f) hand-crafted headers (counts of 2^27..2^40 with the section that would back them left out; tables of 30000-60000 entries; "
+        "Names properties without data); (e) decompression bombs (768 MiB of zeros behind Deflate/BZip2/LZMA/LZMA2/ZStandard/Brotli in a folder declaring two members of a "
         "few hundred KiB); plus the intact corpus. x call sequences of length <= 4 over {getnames, list, test, testzip, "
         "extractall, extract(T), reset} incl. extract twice without reset. Monitors per sequence: CPU time <= %.1fs (ITIMER_PROF, process CPU), "
         "VmHWM rise <= %d MiB, only Exception subclasses escape, worker exit status. (d) histories in one interpreter: one input x one sequence "
@@ -63,6 +64,42 @@ HOSTILE_PROPS = [
 ]
 
 
+def _num(v):
+    from vf.ref7z.numbers import encode_number
+
+    return encode_number(v)
+
+
+def _seal(header: bytes, body: bytes = b"") -> bytes:
+    import struct
+    import zlib
+
+    start = struct.pack("<QQL", len(body), len(header), zlib.crc32(header) & 0xFFFFFFFF)
+    return W.MAGIC + b"\x00\x04" + struct.pack("<L", zlib.crc32(start) & 0xFFFFFFFF) + start + body + header
+
+
+def _crafted(which):
+    copy_folder = b"\x07\x0b\x01\x00" + b"\x01\x01\x00" + b"\x0c\x01\x00"  # UnpackInfo: 1 folder, 1 coder (Copy), unpack size 1
+    if which == "packstreams-2^40-no-sizes":
+        return _seal(b"\x01\x04" + b"\x06\x00" + _num(1 << 40) + b"\x00" + b"\x00" + b"\x00")
+    if which == "substreams-2^27-no-sizes":
+        return _seal(b"\x01\x04" + b"\x06\x00\x01\x09\x01\x00" + copy_folder + b"\x08\x0d" + _num(1 << 27) + b"\x00" + b"\x00" + b"\x00", b"x")
+    if which == "60000-empty-packstreams":
+        n = 60000
+        return _seal(b"\x01\x04" + b"\x06\x00" + _num(n) + b"\x09" + b"\x00" * n + b"\x00" + b"\x00" + b"\x00")
+    if which == "30000-bindpairs":
+        n = 30000
+        coder = b"\x11\x00" + _num(n) + _num(n)  # complex coder: id size 1 (Copy), n in, n out
+        folder = b"\x01" + coder + b"".join(b"\x00\x00" for _ in range(n - 1))
+        return _seal(b"\x01\x04" + b"\x06\x00\x01\x09\x01\x00" + b"\x07\x0b\x01\x00" + folder + b"\x0c" + b"\x01" * n + b"\x00" + b"\x00" + b"\x00", b"x")
+    if which == "names-without-data":
+        props = b"\x11\x01\x00" * 18
+        hdr = b"\x01\x05" + _num(480) + props + b"\x00\x00"
+        return _seal(hdr)
+    raise ValueError(which)
+
+
+CRAFTED = ["packstreams-2^40-no-sizes", "substreams-2^27-no-sizes", "60000-empty-packstreams", "30000-bindpairs", "names-without-data"]
 BOMB_CODECS = ["DEFLATE", "BZip2", "LZMA2", "LZMA", "ZStandard", "Brotli"]
 _bombs = {}
 
@@ -200,6 +237,10 @@ def cases(rng, tier):
     for mid, plist in HOSTILE_PROPS:
         for props in plist:
             out.append({"fam": "props", "id": mid, "props": props, "seqs": _seqs(rng, 4), "open": "stream"})
+    # (f) hand-crafted headers whose counts are not backed by the bytes that follow (sections left out), or whose
+    # tables are long (quadratic parsers): found by a bug hunt, not reachable by one-token mutation of a valid header
+    for name in CRAFTED:
+        out.append({"fam": "crafted", "which": name, "seqs": [["getnames"], ["list"], ["extractall"], ["testzip"]], "open": "stream"})
     # (e) decompression bombs: a folder whose packed stream expands to 768 MiB of zeros while the header declares two members
     # that together are as long as the packed stream itself (a few hundred KiB at most)
     for codec in BOMB_CODECS:
@@ -657,6 +698,8 @@ def run_case(case):
                 data = W.build(mem, lay, password="pw", rng=random.Random(1), header_bytes_hook=bhook)
                 cls = m[0]
             inputs.append(("layout%d:%r" % (case["layout"], m), data, "pw", "struct-" + cls))
+    elif fam == "crafted":
+        inputs.append(("crafted:" + case["which"], _crafted(case["which"]), None, "crafted-header"))
     elif fam == "bomb":
         mid, props, packed = _bomb(case["codec"], case["mib"])
         half = len(packed) // 2
